@@ -143,13 +143,18 @@ def gen_scripts(ctx, rng, n):
         iocb = rng.random() < 0.4
         slow = [p_ for p_ in peers if p_ not in silent and rng.random() < 0.4]
         netopt = {}
-        if rng.random() < 0.15:
+        routed = {}
+        r_ = rng.random()
+        if r_ < 0.15:
             netopt = {"net_number": rng.choice([1, 7, 65534]), "spell": rng.choice(["plain", "net-fresh", "net-reuse"])}
+        elif r_ < 0.3:
+            routed = {"routed": True, "route_aware": rng.random() < 0.5}
         out.append({"peers": peers, "silent": silent, "slow": slow, "script": script,
                     "a": dict({"max_apdu": 128, "retries": rng.choice([0, 1, 1, 3]),
                                "seg": rng.choice(["segmentedBoth", "noSegmentation", "segmentedReceive"])}, **netopt), "iocb": iocb,
                     # requests issued from inside completion callbacks (IOCB only)
                     "chain": [rng.choice(peers) for _ in range(rng.randrange(0, 4))] if iocb else []})
+        out[-1].update(routed)
     # three IOCBs for one peer, the second ends at once in a local abort (too long, client cannot segment)
     out.append({"peers": [30, 40], "silent": [], "iocb": True, "a": {"max_apdu": 128, "retries": 1, "seg": "noSegmentation"},
                 "script": [["req", 30], ["reqbig", 30], ["req", 30], ["req", 30], ["req", 40]]})
@@ -171,6 +176,14 @@ def gen_scripts(ctx, rng, n):
             out.append({"peers": [30, 40], "silent": [40], "iocb": iocb,
                         "a": {"max_apdu": 128, "retries": 1, "net_number": 1, "spell": spell},
                         "script": [["req", 30], ["req", 30], ["req", 40], ["run", 0.0], ["req", 30], ["unconf", 30], ["req", 30]]})
+    # peers on another network behind a real router (cold router cache: the first request is parked until the
+    # path is found); default settings and route_aware switched on; direct and IOCB
+    for ra in (False, True):
+        for iocb in (False, True):
+            out.append({"peers": [30, 40], "silent": [40], "iocb": iocb, "routed": True, "route_aware": ra,
+                        "a": {"max_apdu": 128, "retries": 1},
+                        "script": [["req", 30], ["run", 0.0], ["req", 30], ["req", 40], ["run", 1.0], ["req", 30],
+                                   ["reqbig", 30], ["run", 0.0], ["req", 30], ["unconf", 30], ["run", 20.0], ["req", 30], ["req", 30]]})
     # long histories on ONE stack: more than 256 (and more than 512) requests, so that every
     # per-stack counter (invoke id) wraps; answered at once, a few to a silent peer in between
     for iocb in (False, True):
